@@ -107,6 +107,9 @@ type host struct {
 	// what it does to its elements never comes back in later ones.
 	elementMode int
 	keptEls     []keptElement
+	// refusedOps: before every Next the host asks for things the API refuses with an error - a restore at a node the
+	// script does not have, converting registrations of values that are not functions. A refused request changes nothing.
+	refusedOps bool
 }
 
 type keptElement struct {
@@ -176,8 +179,18 @@ func newHostInMemory(srcs []string, seed string, vars map[string]mval) (*host, e
 	}
 	h.dr = dr
 	h.elementMode = elementModeFor(srcs)
+	h.refusedOps = refusedOpsFor(srcs)
 	h.register()
 	return h, nil
+}
+
+// refusedOpsFor: a third of the hosts make refused requests between the steps.
+func refusedOpsFor(srcs []string) bool {
+	n := 0
+	for _, s := range srcs {
+		n += len(s)
+	}
+	return (n/3)%3 == 0
 }
 
 // elementModeFor: a third of the hosts keep their elements, a third overwrite them, a third just read them.
@@ -209,8 +222,28 @@ func newHost(srcs []string, seed string, vars map[string]mval) (*host, error) {
 	}
 	h.dr = dr
 	h.elementMode = elementModeFor(srcs)
+	h.refusedOps = refusedOpsFor(srcs)
 	h.register()
 	return h, nil
+}
+
+// refusedRequests makes the requests the API refuses; it returns what went wrong ("" if all were refused without a panic).
+func (h *host) refusedRequests() (problem string) {
+	defer func() {
+		if p := recover(); p != nil {
+			problem = fmt.Sprintf("a request that must be refused panicked: %v", p)
+		}
+	}()
+	if err := h.dr.RestoreAt(&ysgo.Snapshot{CurrentNode: "no such node (asked by the host)", VisitedNodes: map[string]int{"no such node (asked by the host)": 3}, Variables: map[string]variable.Value{"refused": *variable.NewNumber(1)}}); err == nil {
+		return "RestoreAt at a node the script does not have succeeded"
+	}
+	if err := h.dr.ConvertAndAddFunction("refused_function", 5); err == nil {
+		return "ConvertAndAddFunction accepted the number 5"
+	}
+	if err := h.dr.ConvertAndAddCommand("refused_command", nil); err == nil {
+		return "ConvertAndAddCommand accepted nil"
+	}
+	return ""
 }
 
 func (h *host) register() {
@@ -274,6 +307,14 @@ func (h *host) step(arg int) Ev {
 	var el *ysgo.DialogueElement
 	var err error
 	var panicked any
+	if h.refusedOps {
+		if problem := h.refusedRequests(); problem != "" {
+			ev := Ev{K: "panic", Text: problem}
+			h.trace = append(h.trace, ev)
+			h.lastOpt = 0
+			return ev
+		}
+	}
 	func() {
 		defer func() { panicked = recover() }()
 		el, err = h.dr.Next(arg)
